@@ -417,6 +417,46 @@ def oracle(ctx: Ctx, Time, labels, src, conv):
                     if shape == "scalar" and np.ndim(getattr(ts, b).jd1) != 0:
                         ctx.violate(f"scalar-shape:{a}->{b}", "scalar in, non-scalar out", {"a": a, "b": b})
 
+    # every input format valid for the scale: build the epoch through the format's own value and check the defining
+    # relations on what comes out (per object, against its own stored instant)
+    FMTS = ["mjd", "jd", "datetime", "isot", "yyyydddsssss", "jyear", "gps_ws", "gps_seconds"]
+    for i in idxs[:ctx.budget(25, 200)]:
+        for a in SCALES:
+            if a not in src:
+                continue
+            a1, a2 = parts(src[a])
+            try:
+                t0 = Time(float(a1[i]), val2=float(a2[i]), fmt="jd", scale=a)
+            except Exception:
+                continue
+            for fmt in FMTS:
+                if fmt.startswith("gps") and (a != "gps" or frac(a1[i]) + frac(a2[i]) < F(4888489, 2)):
+                    continue
+                case = {"a": a, "fmt": fmt, "jd1": float(a1[i]), "jd2": float(a2[i])}
+                try:
+                    v = getattr(t0, fmt)
+                    for shape in ("scalar", "array"):
+                        if fmt == "gps_ws":
+                            tf = Time(float(v.week), val2=float(v.seconds), fmt=fmt, scale=a) if shape == "scalar" else \
+                                Time(np.array([v.week, v.week]), val2=np.array([v.seconds, v.seconds]), fmt=fmt, scale=a)
+                        else:
+                            vv = v.item() if isinstance(v, np.generic) else v
+                            tf = Time(vv, fmt=fmt, scale=a) if shape == "scalar" else Time(np.array([vv, vv]), fmt=fmt, scale=a)
+                        x = insts(tf)[0]
+                        if a == "utc" and utc_status(x) != "ok":
+                            continue
+                        tau = exact_to_tai(a, x)
+                        for b in SCALES:
+                            if b == a or b == "utc":
+                                continue
+                            y = insts(getattr(tf, b))[0]
+                            want = exact_from_tai(b, tau)
+                            ctx.count(f"format:{fmt}")
+                            if abs(y - want) >= NS1 * 2:
+                                ctx.violate(f"defining-relation:{a}->{b}:fmt={fmt}",
+                                            f"{a}->{b} of an epoch given as {fmt} ({shape}) differs from the defined relation by {float((y - want) * 86400):.3e} s", {**case, "b": b, "shape": shape})
+                except Exception as e:
+                    ctx.violate(f"format-raises:{fmt}:{a}", f"{type(e).__name__}: {e}", case)
     # other input formats reach the same conversion (datetime with microseconds)
     from datetime import datetime, timedelta
 
